@@ -50,6 +50,9 @@ func srcName(tok int64) string {
 	if tok == 2 {
 		return ""
 	}
+	if tok == 3 {
+		return "caf\xe9-" + srcPrefix // ISO-8859-1 bytes in a header value (legal obs-text): not valid UTF-8, a token like any other
+	}
 	return srcPrefix + strconv.FormatInt(tok, 10)
 }
 
